@@ -20,10 +20,16 @@ pub struct ExCondvar(std::sync::Condvar);
 
 // the value protected by the mutex, as seen through a guard
 pub uninterp spec fn gval<'a, 'b, T: ?Sized>(g: &'b std::sync::MutexGuard<'a, T>) -> &'b T;
+// the protected value at the moment this guard (re)acquired the lock: lock(), and the return of Condvar::wait / wait_timeout.
+// Mutation through the guard changes gval, not acq: a critical section is the step  acq(&g) -> gval(&g)
+pub uninterp spec fn acq<'a, 'b, T: ?Sized>(g: &'b std::sync::MutexGuard<'a, T>) -> &'b T;
 // which mutex a guard belongs to
 pub uninterp spec fn guard_of<'a, T: ?Sized>(g: &std::sync::MutexGuard<'a, T>) -> &'a std::sync::Mutex<T>;
 
 pub assume_specification<'a, 'b, T: ?Sized>[ <std::sync::MutexGuard<'a, T> as core::ops::Deref>::deref ](g: &'b std::sync::MutexGuard<'a, T>) -> (r: &'b T)
     ensures r == gval(g);
 pub assume_specification<'a, 'b, T: ?Sized>[ <std::sync::MutexGuard<'a, T> as core::ops::DerefMut>::deref_mut ](g: &'b mut std::sync::MutexGuard<'a, T>) -> (r: &'b mut T)
-    ensures &*r == gval(old(g)), gval(final(g)) == &*final(r), guard_of(final(g)) == guard_of(old(g));
+    ensures &*r == gval(old(g)), gval(final(g)) == &*final(r), guard_of(final(g)) == guard_of(old(g)), acq(final(g)) == acq(old(g));
+
+pub assume_specification<T: ?Sized>[ std::sync::Mutex::<T>::lock ](m: &std::sync::Mutex<T>) -> (r: std::sync::LockResult<std::sync::MutexGuard<'_, T>>)
+    ensures r is Ok, guard_of(&r->Ok_0) == m, acq(&r->Ok_0) == gval(&r->Ok_0);
